@@ -30,7 +30,7 @@ def main(args, seed):
 
 def do_replay(plan, path):
     reproduced, hit, same_step, run = runner.replay_file(plan, path)
-    for line in run.log[-12:]:
+    for line in (run.log[-12:] if run is not None else []):
         print("  " + line)
     if reproduced:
         print(f"replayed: {hit[0].to_json()}")
@@ -81,6 +81,7 @@ def do_check(plan, args, seed):
         print(f"REACH-WARNING {wline}")
     rc = 0
     reported = []
+    unreproducible = []
     if violations:
         seen_classes = set()
         for idx, vj, scn, tag in violations:
@@ -90,13 +91,34 @@ def do_check(plan, args, seed):
             seen_classes.add(cls)
             path, doc = runner.minimise_and_write(plan, seed, idx, vj, scn, tag)
             ok = runner.verify_replay_in_fresh_process(plan.prop, path)
-            print(f"violation class={cls} run={idx} minimised to {len(doc['scenario']['steps'])} steps / "
-                  f"{len(doc['scenario']['nodes'])} nodes; fresh-process replay "
-                  f"{'reproduces' if ok else 'DOES NOT reproduce'}")
+            if ok:
+                print(f"violation class={cls} run={idx} minimised to {len(doc['scenario']['steps'])} steps / "
+                      f"{len(doc['scenario']['nodes'])} nodes; fresh-process replay reproduces")
+            else:
+                # not reproducible from its scenario alone: does it reproduce after the runs that preceded
+                # it in the same (per-chunk) process?  -> context replay file
+                os.remove(path)
+                path = None
+                if isinstance(idx, int):
+                    start = (idx // runner.CHUNK) * runner.CHUNK
+                    path = runner.write_context_replay(plan, args.tier, seed, start, idx, vj)
+                if path is None:
+                    unreproducible.append((idx, cls))
+                    print(f"note: violation class={cls} run={idx} reproduces neither from its scenario nor in the "
+                          f"context of its chunk; not reported")
+                    seen_classes.discard(cls)
+                    continue
+                ctx = json.load(open(path))
+                print(f"violation class={cls} run={idx}: reproduces only in the context of runs "
+                      f"{ctx['start']}..{idx} executed in one process (process-global state); context replay reproduces")
             print(f"  {doc['expected'].get('detail')}")
             print(f"VIOLATION property={plan.prop} replay={path}")
             reported.append(path)
-        rc = 1
+        if reported:
+            rc = 1
+        elif unreproducible:
+            print("HARNESS-ERROR: violations were observed but none could be reproduced in a fresh process")
+            rc = 2
     if not args.no_evidence:
         extra = plan.evidence_extra(agg) if hasattr(plan, "evidence_extra") else None
         runner.write_evidence(plan, args.tier, seed, agg, violations, extra)
